@@ -379,7 +379,6 @@ class Facts:
                     c = callee(n)
                     if c in ok and c != owner:
                         cp = copy.deepcopy(new[c]["body"])   # one copy per call site (parent maps are keyed by node identity)
-                        # local ids are per function: keep the helper's locals apart from the caller's (and from other copies)
                         ren = {}
 
                         def fresh(i_):
@@ -393,6 +392,32 @@ class Facts:
                             r_ = m.get("res")
                             if isinstance(r_, dict) and r_.get("r") == "local" and isinstance(r_.get("id"), int):
                                 r_["id"] = fresh(r_["id"])
+                        # literal arguments and plain locals / constants (possibly cloned or borrowed) are propagated into the copy: a parameterised
+                        # helper called with ("left", left.clone()) reads like the code it was extracted from
+                        arg_nodes = ([n["recv"]] + list(n.get("args", []))) if n.get("k") == "MethodCall" else list(n.get("args", []))
+                        lits = {}
+
+                        def bind_lit(pat, arg):
+                            a_ = strip(arg) if isinstance(arg, dict) else {}
+                            simple = a_.get("k") == "Lit" or (a_.get("k") == "Path" and a_.get("res", {}).get("r") in ("local", "const", "ctor", "static"))
+                            if pat.get("p") == "Bind" and "sub" not in pat and simple and isinstance(pat.get("id"), int):
+                                lits[fresh(pat["id"])] = arg if a_.get("k") != "Lit" else a_
+                            elif pat.get("p") == "Tuple" and a_.get("k") in ("Tup", "Array") and len(pat.get("pats", [])) == len(a_.get("es", [])):
+                                for q_, x_ in zip(pat["pats"], a_["es"]):
+                                    bind_lit(q_, x_)
+                        for pat, arg in zip(new[c].get("params", []), arg_nodes):
+                            bind_lit(pat, arg)
+                        if lits:
+                            for m in list(walk(cp)):
+                                r_ = m.get("res")
+                                if m.get("k") == "Path" and isinstance(r_, dict) and r_.get("r") == "local" and r_.get("id") in lits:
+                                    lit = copy.deepcopy(lits[r_["id"]])
+                                    line = m.get("line")
+                                    m.clear()
+                                    m.update(lit)
+                                    if line is not None:
+                                        m["line"] = line
+                        # local ids are per function: keep the helper's locals apart from the caller's (and from other copies)
                         n["inlined"] = cp
         # callees first, so that a copied helper body already carries the bodies of the helpers it calls
         done = set()
